@@ -581,14 +581,18 @@ async fn scenario(ctx: &mut Ctx, base: &str, script: &Script, idx: u64) {
                     2 | 3 => {
                         // path: mostly an existing connector, else any name; body name: the path name, another existing
                         // connector's name, or a fresh one
-                        let existing = w.connector_names().await;
+                        let mut existing = w.connector_names().await;
+                        if existing.is_empty() && ctx.rng.chance(3, 4) {
+                            // nothing to update yet: create something valid first
+                            let c0 = ClusterConnector { name: "c1".into(), connector_type: "console".into(), params: HashMap::new(), description: None };
+                            w.connector(ctx, "create", "c1", Some(c0)).await;
+                            existing = w.connector_names().await;
+                        }
                         let path = if !existing.is_empty() && ctx.rng.chance(3, 4) { ctx.rng.pick(&existing).clone() } else { name.clone() };
-                        let body_name = match ctx.rng.below(4) {
-                            0 | 1 => path.clone(),
-                            2 if !existing.is_empty() => ctx.rng.pick(&existing).clone(),
-                            _ => ctx.rng.pick(&["c1", "c2", "c3", "tmpl"]).to_string(),
-                        };
-                        let c = gen_connector(ctx, &body_name);
+                        let others: Vec<String> = ["c1", "c2", "c3", "tmpl"].iter().map(|x| x.to_string()).filter(|x| *x != path).collect();
+                        let body_name = if ctx.rng.chance(1, 2) { path.clone() } else { ctx.rng.pick(&others).clone() };
+                        let mut c = gen_connector(ctx, &body_name);
+                        if ctx.rng.chance(1, 2) { c.connector_type = "console".into(); } // always valid
                         w.connector(ctx, "update", &path, Some(c)).await;
                     }
                     _ => w.connector(ctx, "delete", &name, None).await,
